@@ -106,7 +106,9 @@ def gen_full_training(rng, kind=None):
     return {"kind": kind, "stage": "full", "passwords": pws, "ngram": rng.choice([2, 3, 4, 4, 4, 5]),
             "alphabet_size": rng.choice([10, 12, 16]) if kind == "full_small_alphabet" else rng.choice([100, 100, 40]),
             "max_len": 21, "encoding": encoding, "coverage": rng.choice([0.6, 0.6, 0.0, 1.0]),
-            "save_sensitive": rng.random() < 0.5}
+            "save_sensitive": rng.random() < 0.5,
+            # password_scorer.py --limit / --max_omen (defaults 0 / 9): they decide the category, never the reported level
+            "limit": rng.choice([0, 0, 0, 1e-12, 0.01]), "max_omen": rng.choice([9, 9, 9, 0, 2, 4, 12])}
 
 
 class FullTrained(ol.Trained):
@@ -279,8 +281,12 @@ def start_cli(T, name, strings, to_file):
     env = common.subenv()
     env["PYTHONPATH"] = code
     cmd = [common.PY, "password_scorer.py", "-r", name, "-i", inp] + (["-o", outp] if outp else [])
+    if T.cfg.get("limit", 0) != 0:
+        cmd += ["-l", repr(T.cfg["limit"])]
+    if T.cfg.get("max_omen", 9) != 9:
+        cmd += ["-m", str(T.cfg["max_omen"])]
     p = subprocess.Popen(cmd, cwd=code, env=env, stdin=subprocess.DEVNULL, stdout=subprocess.PIPE, stderr=subprocess.PIPE)
-    return {"proc": p, "inp": inp, "outp": outp, "strings": list(strings), "cmd": " ".join(cmd[1:4])}
+    return {"proc": p, "inp": inp, "outp": outp, "strings": list(strings), "cmd": " ".join(cmd[1:4] + cmd[(8 if outp else 6):])}
 
 
 def finish_cli(T, run, timeout=120):
